@@ -953,6 +953,9 @@ func modeCrash(tier string, args []string) {
 	total := ncases + len(corpus)
 	// the last quarter again on a child started with -akaros (observation only: Akaros mode has no model)
 	nak := ncases / 4
+	if nak > 1500 {
+		nak = 1500 // keeps the thorough tier inside its time limit
+	}
 	for i := 0; i < total+nak && deaths < 5; i++ {
 		var cc crashCase
 		if i == total {
